@@ -305,8 +305,8 @@ Qed.
 Definition gen_prefix (k : receiver_kind) (reference : option (option string)) : list fnarg :=
   match k with
   | RSelfRef => [self_receiver reference]
-  | RStaticImpl => [impl_receiver]
-  | RDynamicImpl => [self_receiver reference; impl_receiver]
+  | RStaticImpl => [impl_receiver_lt (ref_lifetime reference)]
+  | RDynamicImpl => [self_receiver reference; impl_receiver_lt (ref_lifetime reference)]
   end.
 
 Definition first_ref (l : list fnarg) : option (option string) :=
